@@ -377,19 +377,20 @@ class Body:
                     pl = s["pl"]
                     if not pl["p"]:
                         self.defs[pl["l"]].append((Loc(bb, i), "assign", s))
-                    else:
+                    elif pl["p"][0] != "*":
+                        # a write through a reference (`(*_5).x = ..`) changes the pointee, not _5
                         self.partial[pl["l"]].append((Loc(bb, i), "assign", s))
                     rv = s["rv"]
                     if rv["k"] in ("ref", "rawptr") and rv.get("mut") and not rv["pl"]["p"]:
                         self.mutref.add(rv["pl"]["l"])
-                elif s["k"] == "setdiscr":
+                elif s["k"] == "setdiscr" and (not s["pl"]["p"] or s["pl"]["p"][0] != "*"):
                     self.partial[s["pl"]["l"]].append((Loc(bb, i), "setdiscr", s))
             t = blk["term"]
             if t["k"] == "call":
                 pl = t["dest"]
                 if not pl["p"]:
                     self.defs[pl["l"]].append((Loc(bb, len(blk["stmts"])), "call", t))
-                else:
+                elif pl["p"][0] != "*":
                     self.partial[pl["l"]].append((Loc(bb, len(blk["stmts"])), "call", t))
 
     def is_single_def(self, l):
